@@ -44,6 +44,7 @@ def builtin_sinks(ctx, res):
         st = F.mk_stage("B", redirs=rs, prints="o" if which == "out" else "e", builtin=b)
         step = {"stages": [st], "capture": False, "unop": set()}
         mo = F.parse_model(C.run_model(ctx.model["FDS"], C.write_cases("c04b_%d.txt" % os.getpid(), [F.step_case(step, False, "0,1,2")]))[0])
+        mo3 = F.parse_model(C.run_model(ctx.model["FDS"], C.write_cases("c04b3_%d.txt" % os.getpid(), [F.step_case(step, "1111110", "0,1,2")]))[0])
         work = tempfile.mkdtemp(prefix="c04b_")
         try:
             F.setup_work(work, ())
@@ -59,7 +60,10 @@ def builtin_sinks(ctx, res):
         res.nontrivial("c04b:%s:%s" % (",".join(rs), which))
         msink = mo["sinks"][0].split(".")[0] if mo["sinks"] else "none"
         psink = mo["posix"][0]["sinks"][1 if which == "out" else 2].split(".")[0]
-        if where != {msink}:
+        msink3 = mo3["sinks"][0].split(".")[0] if mo3["sinks"] else "none"
+        if where == {msink3} and msink3 == psink and msink != psink:
+            res.extra.setdefault("accepted", []).append("builtin text follows the POSIX fold (proposed C04-fix-3 behaviour): " + line)
+        elif where != {msink}:
             bad += 1
             if bad <= 2:
                 res.violate(kind="correspondence", layer="L2", input=line, model=msink, observed=sorted(where), failing_input=False,
